@@ -187,6 +187,13 @@ def gen(ctx):
     return lines
 
 
+def valid_b64(e):
+    try:
+        return base64.b64encode(base64.b64decode(e, validate=True)) == e
+    except Exception:
+        return False
+
+
 def classify(o):
     if o['op'] == 'rt':
         return {'op': 'rt', 'impl': o['impl'], 'kind': 'encoding-wrong' if bytes(o['e']) != base64.b64encode(bytes(o['s'])) else 'round-trip-broken'}
@@ -200,6 +207,8 @@ def classify(o):
     if accepted and stripped.endswith(b'===') and all(c in B64 for c in stripped[:-3]) and len(stripped[:-3]) % 4 == 1:
         cls['kind'] = 'accepts-malformed'
         cls['shape'] = 'dangling-sextet-with-three-pads'      # e.g. "A===": 6 zero bits and three '=' are taken as the empty string
+    elif accepted and o['op'] == 'basic' and valid_b64(stripped):
+        cls['kind'] = 'wrong-credentials-split'
     elif accepted:
         cls['kind'] = 'accepts-malformed-or-wrong-value'
     else:
